@@ -107,8 +107,19 @@ type finding struct {
 var verifDir = "/verif"
 var repoDir = "/repo"
 
+// scratch: per-process build products (several checks of the same property may
+// run at once, e.g. against different scratch copies of the repo)
+var scratch []string
+
+func cleanScratch() {
+	for _, f := range scratch {
+		_ = os.Remove(f)
+	}
+}
+
 func die2(format string, a ...any) {
 	fmt.Fprintf(os.Stderr, "check: "+format+"\n", a...)
+	cleanScratch()
 	os.Exit(2)
 }
 
@@ -174,7 +185,8 @@ func main() {
 	harness := filepath.Join(verifDir, "harness")
 	buildDir := filepath.Join(verifDir, "build")
 	_ = os.MkdirAll(buildDir, 0o755)
-	bin := filepath.Join(buildDir, id+".test")
+	pid := strconv.Itoa(os.Getpid())
+	bin := filepath.Join(buildDir, id+"-"+pid+".test")
 
 	// the replace directive must point at the repo under test
 	modfile := filepath.Join(harness, "go.mod")
@@ -183,15 +195,16 @@ func main() {
 		if err != nil {
 			die2("read go.mod: %v", err)
 		}
-		alt := filepath.Join(buildDir, "alt-"+id+".mod")
+		alt := filepath.Join(buildDir, "alt-"+id+"-"+pid+".mod")
 		nb := bytes.Replace(b, []byte("=> /repo"), []byte("=> "+repoDir), 1)
 		_ = os.WriteFile(alt, nb, 0o644)
 		if sum, err := os.ReadFile(filepath.Join(harness, "go.sum")); err == nil {
-			_ = os.WriteFile(filepath.Join(buildDir, "alt-"+id+".sum"), sum, 0o644)
+			_ = os.WriteFile(filepath.Join(buildDir, "alt-"+id+"-"+pid+".sum"), sum, 0o644)
 		}
 		modfile = alt
-		bin = filepath.Join(buildDir, id+"-alt.test")
+		scratch = append(scratch, alt, filepath.Join(buildDir, "alt-"+id+"-"+pid+".sum"))
 	}
+	scratch = append(scratch, bin)
 
 	// ---- build
 	bargs := []string{"test", "-c", "-tags", "verif", "-o", bin}
@@ -223,6 +236,7 @@ func main() {
 			_ = os.WriteFile(logf, bout.Bytes(), 0o644)
 			writeEvidence(id, tier, seed, cfg, &stats{Property: id, Evaluations: 1, Rule: "GOOS=js GOARCH=wasm go build of the root package", Samples: []json.RawMessage{json.RawMessage(`"go build (js/wasm) failed"`)}}, 0, 1, time.Since(t0), []string{"build failed"})
 			fmt.Printf("VIOLATION property=%s replay=%s\n", id, logf)
+			cleanScratch()
 			os.Exit(1)
 		}
 		die2("build of %s failed: %v", cfg.Pkg, err)
@@ -297,6 +311,7 @@ func main() {
 		}(i)
 	}
 	wg.Wait()
+	cleanScratch()
 
 	// ---- merge
 	merged := &stats{Property: id, Classes: map[string]int64{}, Excluded: map[string]int64{}, KnownHits: map[string]string{}, Extra: map[string]any{}}
